@@ -215,7 +215,8 @@ func apiOccurrences(r *Rand, as []*apiOpt, sepOK bool) (toks []string, want map[
 			continue
 		}
 		v := apiGood[a.Kind][r.Intn(len(apiGood[a.Kind]))]
-		if sepOK && v != "" && v[0] != '-' && r.Chance(1, 3) {
+		negNumber := len(v) > 1 && v[0] == '-' && v[1] >= '0' && v[1] <= '9' && (a.Kind == "int" || a.Kind == "float")
+		if sepOK && v != "" && (v[0] != '-' || negNumber) && r.Chance(1, 3) {
 			// argument as the next token (an option that takes an argument consumes any next token that does not
 			// look like an option)
 			toks = append(toks, name, v)
@@ -446,20 +447,36 @@ type miniOpt struct {
 	EnvDelim string
 	EnvVals  []string // nil = variable not set
 	CmdHome  bool
+	Hidden   bool
+	Mask     bool
 }
 
 type miniParser struct {
 	P      *flags.Parser
 	Opts   []*miniOpt
 	HasCmd bool
+	Cmd    *flags.Command
 	Desc   []string
 }
 
 var miniSeq int
 
 func buildMini(r *Rand, forReq bool) *miniParser {
+	mode := "src"
+	if forReq {
+		mode = "req"
+	}
+	return buildMiniMode(r, mode)
+}
+
+// modes: req (Required, commands), src (Default/env/initial content), doc (Hidden, Description, DefaultMask, commands), plain
+func buildMiniMode(r *Rand, mode string) *miniParser {
+	forReq := mode == "req"
 	m := &miniParser{}
 	po := []flags.Options{flags.None, flags.PassDoubleDash, flags.HelpFlag, flags.IgnoreUnknown}[r.Intn(4)]
+	if (mode == "doc" || mode == "comp") && po == flags.HelpFlag {
+		po = flags.None
+	}
 	m.P = flags.NewNamedParser("mini", po)
 	m.Desc = append(m.Desc, "NewNamedParser(\"mini\", "+optionsString(po)+")")
 	var grp *flags.Group
@@ -477,13 +494,14 @@ func buildMini(r *Rand, forReq bool) *miniParser {
 		m.Desc = append(m.Desc, fmt.Sprintf("AddGroup(\"Extra\") Namespace=%q EnvNamespace=%q", gNS, gEnvNS))
 	}
 	var cmd *flags.Command
-	if forReq && r.Bool() {
+	if (forReq || mode == "doc" || mode == "comp") && r.Bool() {
 		cmd, _ = m.P.AddCommand("run", "", "", &struct{}{})
 		m.P.SubcommandsOptional = true
 		m.HasCmd = true
 		m.Desc = append(m.Desc, "AddCommand(\"run\"), SubcommandsOptional")
 	}
 	n := r.Range(1, 3)
+	twin := false
 	kinds := []string{"int", "string", "strs", "map", "dur", "float"}
 	for i := 0; i < n; i++ {
 		miniSeq++
@@ -495,7 +513,26 @@ func buildMini(r *Rand, forReq bool) *miniParser {
 		a.Ptr = apiVar(a.Kind)
 		if forReq {
 			mo.Required = r.Chance(2, 3)
-		} else {
+		} else if mode == "doc" || mode == "comp" {
+			mo.Hidden = r.Chance(1, 3)
+			if mode == "comp" && r.Chance(1, 3) {
+				// short name only
+				a.Long = ""
+				a.Short = apiShorts[i]
+			}
+			if mode == "doc" && r.Chance(1, 4) {
+				mo.Mask = true // a mask without Default tags: it stands for whatever the variable holds
+			}
+			if a.Kind == "string" && r.Bool() {
+				a.Default = []string{"s3cr3t"}
+				if mo.Mask || r.Bool() {
+					mo.Mask = true
+					a.Default = []string{"s3cr3t-" + a.Long}
+				}
+			} else if a.Kind == "int" && r.Bool() {
+				a.Default = []string{"4711"}
+			}
+		} else if mode == "src" {
 			if r.Bool() {
 				switch a.Kind {
 				case "string":
@@ -527,17 +564,35 @@ func buildMini(r *Rand, forReq bool) *miniParser {
 				}
 			}
 		}
+		if mode == "plain" && i == 1 && gNS != "" && m.Opts[0].Home == "group Extra" && r.Chance(2, 3) {
+			a.Long = "xadd1" // the same long name as the first option: they must end up in different name spaces
+			twin = true
+		}
 		a.FO = &flags.Option{LongName: a.Long, ShortName: a.Short, Default: a.Default, Required: mo.Required, EnvDefaultKey: mo.EnvKey, EnvDefaultDelim: mo.EnvDelim}
+		if mode == "doc" || mode == "comp" {
+			a.FO.Description = fmt.Sprintf("about-%s", a.Long)
+			a.FO.Hidden = mo.Hidden
+			if mo.Mask {
+				a.FO.DefaultMask = "MASKED"
+			}
+		}
+		m.Cmd = cmd
 		mo.EnvFull = mo.EnvKey
 		a.Full = a.Long
-		switch x := r.Intn(3); {
+		x := r.Intn(3)
+		switch {
+		case twin && i == 1:
+			// a second group without namespace, registered after the namespaced one
+			other, _ := m.P.AddGroup("Other", "", &struct{}{})
+			other.AddOption(a.FO, a.Ptr.Interface())
+			a.Home = "group Other"
 		case x == 1 && grp != nil:
 			grp.AddOption(a.FO, a.Ptr.Interface())
 			a.Home = "group Extra"
 			if gEnvNS != "" && mo.EnvKey != "" {
 				mo.EnvFull = gEnvNS + "_" + mo.EnvKey
 			}
-			if gNS != "" {
+			if gNS != "" && a.Long != "" {
 				a.Full = gNS + "." + a.Long
 			}
 		case x == 2 && cmd != nil:
@@ -551,6 +606,12 @@ func buildMini(r *Rand, forReq bool) *miniParser {
 		d := a.describe()
 		if mo.Required {
 			d += " Required"
+		}
+		if mo.Hidden {
+			d += " Hidden"
+		}
+		if mo.Mask {
+			d += " DefaultMask=MASKED"
 		}
 		if mo.EnvKey != "" {
 			d += fmt.Sprintf(" EnvDefaultKey=%q EnvDefaultDelim=%q (variable %s)", mo.EnvKey, mo.EnvDelim, mo.EnvFull)
@@ -766,4 +827,269 @@ func apiMiniRequired(c *Ctx) {
 		}
 	}
 	c.Held("api-added/required/missing", shape)
+}
+
+// apiMiniDoc (C16): help and man page list exactly the visible added options; a masked default never shows.
+func apiMiniDoc(c *Ctx) {
+	r := c.Sub("api-mini")
+	m := buildMiniMode(r, "doc")
+	active := m.Cmd != nil && r.Bool()
+	if active {
+		m.P.Active = m.Cmd
+		m.Desc = append(m.Desc, "Active = run")
+	}
+	c.Case(func() interface{} { return map[string]interface{}{"program": m.Desc} })
+	var hb, mb strings.Builder
+	pi := safely(func() { m.P.WriteHelp(&hb); m.P.WriteManPage(&mb) })
+	c.Count("documents", 2)
+	if pi != nil {
+		c.Violate("api-added-option:panic:"+panicSite(pi.Stack), "writing help / man page panicked: %s", pi.Value)
+		return
+	}
+	help, man := hb.String(), mb.String()
+	shape := ""
+	for _, o := range m.Opts {
+		for gi, doc := range []string{help, man} {
+			gen := []string{"help", "man"}[gi]
+			if gen == "help" && o.CmdHome && !active {
+				continue // not on the active chain: not judged
+			}
+			long := "--" + o.Full
+			if gen == "man" {
+				long = "\\-\\-" + strings.ReplaceAll(o.Full, "-", "\\-")
+			}
+			has := strings.Contains(doc, long)
+			hasDesc := strings.Contains(doc, "about-"+o.Long) || strings.Contains(doc, "about\\-"+o.Long)
+			if o.Hidden && (has || hasDesc) {
+				c.Violate("api-added-option:"+gen+":hidden-shown", "hidden option --%s appears in the %s", o.Full, gen)
+				c.Note("document", clip(doc, 3000))
+				return
+			}
+			if !o.Hidden && (!has || !hasDesc) {
+				c.Violate("api-added-option:"+gen+":visible-missing", "visible option --%s (name found=%v, description found=%v) in the %s", o.Full, has, hasDesc, gen)
+				c.Note("document", clip(doc, 3000))
+				return
+			}
+			if o.Mask && strings.Contains(doc, "s3cr3t-"+o.Long) {
+				c.Violate("api-added-option:"+gen+":masked-default-shown", "the real default of --%s appears in the %s although DefaultMask is set", o.Full, gen)
+				c.Note("document", clip(doc, 3000))
+				return
+			}
+			if !o.Hidden && !o.Mask && len(o.Default) > 0 && !strings.Contains(doc, o.Default[0]) {
+				c.Violate("api-added-option:"+gen+":default-missing", "the default %q of --%s does not appear in the %s", o.Default[0], o.Full, gen)
+				c.Note("document", clip(doc, 3000))
+				return
+			}
+			if !o.Hidden && o.Mask && !strings.Contains(doc, "MASKED") {
+				c.Violate("api-added-option:"+gen+":mask-missing", "the default-mask of --%s does not appear in the %s", o.Full, gen)
+				c.Note("document", clip(doc, 3000))
+				return
+			}
+		}
+		shape += fmt.Sprintf("%v/%v/%s,", o.Hidden, o.Mask, o.Home)
+	}
+	c.Held("api-added/doc", shape)
+}
+
+// apiMiniComplete (C18): a partial long name or a bare dash yields exactly the visible options in scope.
+func apiMiniComplete(c *Ctx) {
+	r := c.Sub("api-mini")
+	m := buildMiniMode(r, "comp")
+	var args []string
+	inCmd := m.Cmd != nil && r.Bool()
+	if inCmd {
+		args = append(args, "run")
+	}
+	partial := []string{"--", "-", "--x", "--xadd", "--ns", "--ns.x", "--xadd1", "--q"}[r.Intn(8)]
+	args = append(args, partial)
+	c.Case(func() interface{} { return map[string]interface{}{"program": m.Desc, "typed": fmt.Sprintf("%q", args)} })
+	var want []string
+	pre := partial
+	if pre == "-" {
+		pre = "--"
+	}
+	for _, o := range m.Opts {
+		if o.Hidden || (o.CmdHome && !inCmd) {
+			continue
+		}
+		if o.Full == "" {
+			// a short-only option is offered by its short name, for the bare dash only
+			if partial == "-" {
+				want = append(want, "-"+string(o.Short))
+			}
+			continue
+		}
+		if strings.HasPrefix("--"+o.Full, pre) {
+			want = append(want, "--"+o.Full)
+		}
+	}
+	sort.Strings(want)
+	got, calls, pi := c18Complete(&Built{P: m.P}, args)
+	c.Count("completions", 1)
+	if pi != nil {
+		c.Violate("api-added-option:panic:"+panicSite(pi.Stack), "completion panicked: %s", pi.Value)
+		return
+	}
+	if calls != 1 {
+		c.Violate("api-added-option:handler-calls", "the completion handler was called %d times", calls)
+		return
+	}
+	items := itemsOf(got)
+	if fmt.Sprintf("%q", items) != fmt.Sprintf("%q", want) {
+		c.Violate("api-added-option:completion-list", "typed %q: offered %q, the visible options in scope with that prefix are %q", args, items, want)
+		return
+	}
+	c.Held("api-added/complete", fmt.Sprintf("%s n=%d cmd=%v", partial, len(want), inCmd))
+}
+
+// apiMiniIniVsFlag (C13): `name = value` entries mean what --name=value occurrences mean.
+func apiMiniIniVsFlag(c *Ctx) {
+	seedR := c.Sub("api-mini")
+	salt := seedR.Intn(1 << 30)
+	ma := buildMiniMode(NewRand("C13mini", c.Seed, c.K, uint64(salt)), "plain")
+	mb := buildMiniMode(NewRand("C13mini", c.Seed, c.K, uint64(salt)), "plain")
+	r := c.Sub("api-mini-vec")
+	var args, lines []string
+	section := ""
+	asDefaults := r.Bool()
+	for i, n := 0, r.Range(1, 4); i < n; i++ {
+		j := r.Intn(len(ma.Opts))
+		o := ma.Opts[j]
+		if o.Kind == "bool" {
+			continue
+		}
+		v := apiGood[o.Kind][r.Intn(len(apiGood[o.Kind]))]
+		name := o.Full
+		if o.Short != 0 && r.Bool() {
+			name = string(o.Short)
+		}
+		args = append(args, "--"+o.Full+"="+v)
+		lines = append(lines, name+" = "+v)
+	}
+	text := section + strings.Join(lines, "\n") + "\n"
+	c.Case(func() interface{} {
+		return map[string]interface{}{"program": ma.Desc, "argv": fmt.Sprintf("%q", args), "ini": text, "ParseAsDefaults": asDefaults}
+	})
+	var ea, eb error
+	pa := safely(func() { _, ea = ma.P.ParseArgs(args) })
+	pb := safely(func() {
+		ip := flags.NewIniParser(mb.P)
+		ip.ParseAsDefaults = asDefaults
+		eb = ip.Parse(strings.NewReader(text))
+	})
+	c.Count("files_parsed", 1)
+	if pa != nil || pb != nil {
+		c.Violate("api-added-option:panic", "panic: argv %v ini %v", pa, pb)
+		return
+	}
+	if ea != nil || eb != nil {
+		c.Violate("api-added-option:rejected", "valid input rejected: argv: %v; ini: %v", ea, eb)
+		return
+	}
+	for j, o := range ma.Opts {
+		if ga, gb := o.current(), mb.Opts[j].current(); ga != gb {
+			c.Violate("api-added-option:ini-vs-flag:"+o.Kind, "%s: the command line %q stores %s, the file %q stores %s", o.describe(), args, ga, text, gb)
+			return
+		}
+	}
+	c.Held("api-added/ini-vs-flag", fmt.Sprintf("n=%d asDefaults=%v", len(lines), asDefaults))
+}
+
+// apiMiniConvert (C11): the text given to an added numeric / duration option is converted exactly or rejected.
+func apiMiniConvert(c *Ctx) {
+	r := c.Sub("api-mini")
+	kinds := []struct {
+		name string
+		k    TK
+	}{{"int", KInt}, {"u8", KUint8}, {"float", KFloat64}, {"dur", KDuration}}
+	kd := kinds[r.Intn(len(kinds))]
+	a := &apiOpt{Long: "xadd1", Kind: kd.name, Full: "xadd1", Home: "parser"}
+	a.Ptr = apiVar(a.Kind)
+	p := flags.NewNamedParser("mini", flags.None)
+	a.FO = &flags.Option{LongName: a.Long}
+	var choices []string
+	txt := GenScalarText(r, kd.k, 10, 0)
+	if kd.name == "int" && r.Chance(1, 3) {
+		choices = []string{"5", "-3", "0x10", "12"}
+		a.FO.Choices = choices
+		if r.Bool() {
+			txt = choices[r.Intn(len(choices))]
+		}
+	}
+	if r.Bool() {
+		g, _ := p.AddGroup("Extra", "", &struct{}{})
+		g.Namespace = "ns"
+		g.AddOption(a.FO, a.Ptr.Interface())
+		a.Full, a.Home = "ns.xadd1", "group Extra"
+	} else {
+		p.AddOption(a.FO, a.Ptr.Interface())
+	}
+	args := []string{"--" + a.Full + "=" + txt}
+	negNumber := len(txt) > 1 && txt[0] == '-' && txt[1] >= '0' && txt[1] <= '9' && kd.name != "u8"
+	if txt != "" && (txt[0] != '-' || negNumber) && r.Bool() {
+		// (an option of a signed numeric type takes a following "-<digit>..." token as its argument)
+		args = []string{"--" + a.Full, txt}
+	}
+	c.Case(func() interface{} {
+		return map[string]interface{}{"program": a.describe(), "choices": choices, "argv": fmt.Sprintf("%q", args)}
+	})
+	if len(txt) >= 2 && txt[0] == '"' {
+		c.Unspec("quoted text")
+		return
+	}
+	ref := RefScalar(kd.k, 10, txt)
+	var err error
+	pi := safely(func() { _, err = p.ParseArgs(args) })
+	c.Count("parses", 1)
+	if pi != nil {
+		c.Violate("api-added-option:panic:"+panicSite(pi.Stack), "ParseArgs panicked: %s", pi.Value)
+		return
+	}
+	fe, _ := err.(*flags.Error)
+	if choices != nil {
+		in := false
+		for _, ch := range choices {
+			in = in || ch == txt
+		}
+		if !in {
+			if fe == nil || fe.Type != flags.ErrInvalidChoice {
+				c.Violate("api-added-option:non-choice:"+errTypeName(err), "%q is not one of the choices %q: %v", txt, choices, err)
+				return
+			}
+			for _, ch := range choices {
+				if !strings.Contains(fe.Message, ch) {
+					c.Violate("api-added-option:choice-message", "the message %q does not list the allowed value %q", fe.Message, ch)
+					return
+				}
+			}
+			c.Held("api-added/convert/non-choice", kd.name)
+			return
+		}
+	}
+	cell := "api-added/convert/" + kd.name + "/" + ref.Cls.String()
+	switch {
+	case err == nil:
+		if ref.Cls == MustReject {
+			c.Violate("api-added-option:accepted:"+kd.name, "%q does not denote a value of the type (%s) but was accepted; stored %v", txt, ref.Why, a.Ptr.Elem().Interface())
+			return
+		}
+		if ref.HasVal && fmt.Sprintf("%v", ref.Val.Interface()) != fmt.Sprintf("%v", a.Ptr.Elem().Interface()) {
+			c.Violate("api-added-option:wrong-value:"+kd.name, "%q denotes %v, stored %v", txt, ref.Val.Interface(), a.Ptr.Elem().Interface())
+			return
+		}
+	default:
+		if ref.Cls == MustAccept {
+			c.Violate("api-added-option:rejected:"+kd.name, "%q denotes %v but was rejected: %v", txt, ref.Val.Interface(), err)
+			return
+		}
+		if fe == nil || fe.Type != flags.ErrMarshal {
+			c.Violate("api-added-option:reject-type:"+errTypeName(err), "%q rejected with %v instead of ErrMarshal", txt, err)
+			return
+		}
+		if !strings.Contains(fe.Message, "--"+a.Full) {
+			c.Violate("api-added-option:reject-message", "the message %q does not identify the option --%s", fe.Message, a.Full)
+			return
+		}
+	}
+	c.Held(cell, fmt.Sprintf("len=%d", minInt(len(txt), 12)))
 }
